@@ -128,48 +128,41 @@ class SunVoxReader(Reader):
         # Clear out empty modules at end of list.
         while self.object.modules and self.object.modules[-1] is None:
             self.object.modules.pop()
-        # inLinkSlots are not written out by SunVox if all zeros; initialize if missing.
+        modules = self.object.modules
         # Start with the first non-output module, work our way up, then output module.
-        for mod in self.object.modules[1:] + self.object.modules[:1]:
-            if not mod or mod.in_link_slots:
+        ordered = [mod for mod in modules[1:] + modules[:1] if mod]
+        # Links whose slots are given in the file claim their outgoing slots first, so
+        # slots rebuilt below for modules without slot information cannot collide.
+        for mod in ordered:
+            if mod.in_link_slots:
+                self._generate_out_links(mod)
+        # inLinkSlots are not written out by SunVox if all zeros; initialize if missing.
+        for mod in ordered:
+            if mod.in_link_slots:
                 continue
             for other_mod_num in mod.in_links:
                 if other_mod_num == -1:
                     mod.in_link_slots.append(-1)
                     continue
-                if other_mod_num >= len(self.object.modules):
+                if other_mod_num >= len(modules):
                     log.warning(
                         "Found SLNK on %r referencing non-existent module %r",
                         mod.index,
                         other_mod_num,
                     )
                     continue
-                other_mod = self.object.modules[other_mod_num]
-                in_slot = len(other_mod.out_link_slots)
+                other_mod = modules[other_mod_num]
+                out_links = other_mod.out_links
+                out_link_slots = other_mod.out_link_slots
+                # Use the first outgoing slot that no other link has claimed.
+                in_slot = out_links.index(-1) if -1 in out_links else len(out_links)
+                if in_slot == len(out_links):
+                    out_links.append(-1)
+                    out_link_slots.append(-1)
                 out_slot = len(mod.in_link_slots)
                 mod.in_link_slots.append(in_slot)
-                other_mod.out_links.append(mod.index)
-                other_mod.out_link_slots.append(out_slot)
-        # generate outLinks based on inLinks
-        for mod in self.object.modules:
-            if not mod:
-                continue
-            in_links = mod.in_links
-            in_link_slots = mod.in_link_slots
-            for in_link_idx, in_link in enumerate(in_links):
-                out_link_idx = in_link_slots[in_link_idx]
-                src_mod = self.object.modules[in_link]
-                if not src_mod:
-                    raise RuntimeError()
-                out_links = src_mod.out_links
-                out_link_slots = src_mod.out_link_slots
-                while out_link_idx >= len(out_links):
-                    out_links.append(-1)
-                while out_link_idx >= len(out_link_slots):
-                    out_link_slots.append(-1)
-                if out_link_idx != -1:
-                    out_links[out_link_idx] = mod.index
-                    out_link_slots[out_link_idx] = in_link_idx
+                out_links[in_slot] = mod.index
+                out_link_slots[in_slot] = out_slot
         # Clear high byte of module in patterns if version was < 1.9.5.0
         if self.object.loaded_sunvox_version < (1, 9, 5, 0):
             for pat in self.object.patterns:
@@ -179,3 +172,22 @@ class SunVoxReader(Reader):
                     for note in line:
                         note.module &= 0xFF
         raise ReaderFinished()
+
+    def _generate_out_links(self, mod):
+        """Generate outLinks of the source modules based on the inLinks of mod."""
+        in_links = mod.in_links
+        in_link_slots = mod.in_link_slots
+        for in_link_idx, in_link in enumerate(in_links):
+            out_link_idx = in_link_slots[in_link_idx]
+            src_mod = self.object.modules[in_link]
+            if not src_mod:
+                raise RuntimeError()
+            out_links = src_mod.out_links
+            out_link_slots = src_mod.out_link_slots
+            while out_link_idx >= len(out_links):
+                out_links.append(-1)
+            while out_link_idx >= len(out_link_slots):
+                out_link_slots.append(-1)
+            if out_link_idx != -1:
+                out_links[out_link_idx] = mod.index
+                out_link_slots[out_link_idx] = in_link_idx
